@@ -9,8 +9,11 @@ and an op is a tuple whose first entry is the constructor name of `op` in Model/
 arguments (grids as indices 0..2, booleans, enum names).
 """
 import copy
+import os
 import sys
 import warnings
+for _v in ('OMP_NUM_THREADS', 'OPENBLAS_NUM_THREADS', 'MKL_NUM_THREADS'):
+    os.environ.setdefault(_v, '1')
 import numpy as np
 import scipy.linalg
 import filter_functions as ff
@@ -270,6 +273,9 @@ def apply_op(world, p, op):
     if name == 'RemapInput':
         ff.remap(p, (0,))
         return None
+    if name == 'PropagatorAt':
+        p.propagator_at_arb_t(np.array([0.05, 0.4, 0.9]))
+        return None
     raise ValueError(op)
 
 
@@ -375,7 +381,7 @@ def coq_op(world, op):
         return '(Cumulant %s %s %s %s)' % (G(a[0]), a[1], cb(a[2]), copt(a[3], cb))
     if name == 'ErrorTransferMatrix':
         return '(ErrorTransferMatrix %s %s %s)' % (G(a[0]), cb(a[1]), cb(a[2]))
-    if name in ('GetPCCM', 'Diagonalize', 'TplProp', 'TProp', 'TauProp', 'PeriodicInput', 'RemapInput'):
+    if name in ('GetPCCM', 'Diagonalize', 'TplProp', 'TProp', 'TauProp', 'PeriodicInput', 'RemapInput', 'PropagatorAt'):
         return name
     raise ValueError(op)
 
@@ -456,12 +462,15 @@ def alphabet(world, with_bad_user=False, small=False):
             ops.append(('CachePhases', g, False))
     ops += [('GetPCCM',), ('GetPCFF', 'Fidelity'), ('GetPCFF', 'Generalized'), ('Diagonalize',),
             ('LazyProp', 'S_eigvals'), ('LazyProp', 'S_propagators'), ('LazyProp', 'S_total_propagator'),
-            ('TplProp',), ('TProp',), ('TauProp',), ('PeriodicInput',), ('RemapInput',), ('BadParams', 0)]
+            ('TplProp',), ('TProp',), ('TauProp',), ('PeriodicInput',), ('RemapInput',), ('PropagatorAt',), ('BadParams', 0)]
     ops += [('Cleanup', m) for m in CLEANUP]
     if small:
-        keep = {'GetCM', 'CacheCM', 'GetFF', 'CacheFF', 'GetDeriv', 'GetPhases', 'Cleanup', 'GetPCFF', 'Infidelity',
-                'Cumulant', 'LazyProp'}
-        ops = [o for o in ops if o[0] in keep]
+        ops = []
+        for g in range(3):
+            ops += [('GetCM', g, True), ('GetFF', g, 'Fidelity', 'Second', False),
+                    ('GetFF', g, 'Generalized', 'First', False), ('CacheFF', g, None, True, 'Fidelity', 'First', False),
+                    ('CacheCM', g, (True, True), False), ('GetDeriv', g), ('GetPhases', g)]
+        ops += [('Cleanup', m) for m in CLEANUP] + [('GetPCFF', 'Generalized'), ('LazyProp', 'S_eigvals')]
     return ops
 
 
